@@ -154,7 +154,7 @@ INPUT_TAIL = r'''
             ensures r == input_of(handle),
         { unimplemented!() }
     }
-    // ASSUMED (proved for the real conversion by the Kani unit U-CAP): a slice handle becomes Input::Slice of the same bytes
+    // ASSUMED here; PROVED on the verbatim `impl From<Handle> for Input` in U-CAP-V (first clause of its contract): a slice handle becomes Input::Slice of the same bytes
     #[verifier::external_body]
     pub broadcast proof fn axiom_input_of_slice<'i>(h: Handle<'i>)
         ensures handle_slice(&h) matches Some(b) ==> (#[trigger] input_of(h) matches Input::Slice(c) && c@ == b),
